@@ -62,7 +62,7 @@ pub fn run(tier: Tier, seed: u64) -> i32 {
             items.push((api, t.clone()));
         }
     }
-    let small: Vec<InTuple> = tuples.iter().filter(|t| t.devs <= 1).cloned().collect();
+    let small: Vec<InTuple> = tuples.iter().filter(|t| t.devs <= 1 && !t.boundary).cloned().collect();
     for api in apis_of(crate::adapter::probe::suites()) {
         for t in &small {
             for k in [None, Some(0u32), Some(2u32)] {
